@@ -233,6 +233,7 @@ Proof.
     destruct (path_eqb (tgt ++ [n]) (mp ++ [match asn with Some a => a | None => n end])); auto.
   - destruct asn; auto.
   - destruct (exports st); auto.
+  - destruct (exports st); auto.
 Qed.
 
 Lemma bind_of_lineno s a m : bind_of s = Some (a, m) -> member_lineno m = stmt_ln s.
@@ -772,7 +773,7 @@ Proof.
   - intros H. specialize (H [] (SStar 1 ["wf4"; "a"]) [] (SStar 1 ["wf4"; "b"]) [] eq_refl). simpl in H. lia.
 Qed.
 
-(* F6: __all__.extend(...) is not seen by the visitor *)
+(* former finding F6 (repaired): __all__.extend(...) is part of the exports *)
 Definition w6 : list modsrc :=
   [mkSrc ["wf6"] true ["a"; "d"; "e"] [];
    mkSrc ["wf6"; "a"] false [] [SDef 1 "f" KFunc];
@@ -780,12 +781,11 @@ Definition w6 : list modsrc :=
    mkSrc ["wf6"; "e"] false [] [SStar 1 ["wf6"; "d"]]].
 Definition o6 : list path := [["wf6"]; ["wf6"; "a"]; ["wf6"; "d"]; ["wf6"; "e"]].
 
-Lemma extend_ignored_refuted :
-  exists top ms order,
-    is_ok (py_import ms order []) = true /\
-    agreeb top (loaded_table (griffe_load top ms)) (py_table (py_import ms order [])) = false /\
-    agreeb top (griffe_sched top ms order) (py_table (py_import ms order [])) = false.
-Proof. exists "wf6", w6, o6. repeat split; vm_compute; reflexivity. Qed.
+Example extend_repaired :
+  is_ok (py_import w6 o6 []) = true /\
+  agreeb "wf6" (loaded_table (griffe_load "wf6" w6)) (py_table (py_import w6 o6 [])) = true /\
+  agreeb "wf6" (griffe_sched "wf6" w6 o6) (py_table (py_import w6 o6 [])) = true.
+Proof. repeat split; vm_compute; reflexivity. Qed.
 
 (* F7: an alias member replaced by a wildcard expansion is the target of another alias: whoever resolved it before the
    replacement keeps the stale target.  The model cannot tell when the implementation resolves; it reports both. *)
@@ -856,7 +856,10 @@ Definition expand_with (src : string -> bool -> option (list item)) (ex : list i
                            end) ex acc0.
 
 Definition sched_src (fuel : nat) (t : table) (top : string) (mp : path) (st : modst) (l : string) (a : bool) : option (list item) :=
-  let from_module := fun q => match get_mod t q with Some stq => exports stq | None => None end in
+  let from_module := fun q0 => match list_owner fuel t top q0 (ref_list_name mp st l a) with
+                               | Some q => match get_mod t q with Some stq => exports stq | None => None end
+                               | None => None
+                               end in
   match ref_module_path mp st l a with
   | Some p => match lookup_path t top p with
               | LMod q => from_module q
@@ -876,9 +879,9 @@ Proof.
   intros acc [x|l a]; auto.
   unfold sched_src. destruct (ref_module_path mp st l a) as [p|]; auto.
   destruct (lookup_path t top p) as [q|amp an am| |]; auto.
-  - destruct (get_mod t q) as [stq|]; auto.
+  - destruct (list_owner fuel t top q (ref_list_name mp st l a)) as [q1|]; auto. destruct (get_mod t q1) as [stq|]; auto.
   - destruct (final fuel t top am (amp ++ [an])) as [k p'|q|]; auto.
-    destruct (get_mod t q) as [stq|]; auto.
+    destruct (list_owner fuel t top q (ref_list_name mp st l a)) as [q1|]; auto. destruct (get_mod t q1) as [stq|]; auto.
 Qed.
 
 Lemma mem_item_str x acc : mem_item (IStr x) acc = true <-> In (IStr x) acc.
